@@ -109,12 +109,15 @@ class Check:
             # inode numbers are unique per device: the second device draws its numbers without
             # replacement, mostly from the numbers already used on the first device
             pool = [100 + i for i in range(len(outside))]
+            pool_all = list(pool)
             rng.shuffle(pool)
             for i, p in enumerate(inside):
                 if pool and rng.random() < 0.8:
                     st[p] = {"ino": pool.pop(), "dev": 99}
                 else:
                     st[p] = {"ino": 5000 + i, "dev": 99}
+            # the top of the second device is a mount point: its d_ino (in the parent's stream) is the covered directory's number
+            st.setdefault(sub, {})["dino"] = rng.choice(pool_all) if pool_all else 777
             plan["stat"] = st
         return {"world": world, "roots": roots, "plan": plan, "order_class": cls, "multidev": multidev, "cwd": cwd,
                 "cwd_default": single_default, "select_word": rng.choice(["select ", ""])}
